@@ -48,3 +48,26 @@ func H_C19_blockLoopVsRegistration() {
 }
 
 func vNoBlockWatcher(s *BlockchainRpcTxWatcher) error { return nil }
+
+// H_C19_csvScanVsRegistration: a block notification scans the csv watch list (HandleCsvTx: one gettxout
+// per entry, callbacks) while another swap registers its csv watch (AddWaitForCsvTx) or a finished one is
+// removed (TxClaimed).
+func H_C19_csvScanVsRegistration() {
+	chain := &vChain{mode: vAnyNotif}
+	wt := NewBlockchainRpcTxWatcher(context.Background(), chain, 3)
+	wt.AddCsvCallback(func(swapId string) error { return nil })
+	start := zzverif.U32("start")
+	// one swap is being watched already (registered without the immediate check goroutine mattering)
+	wt.csvtxWatchList["swap-0"] = &SwapTxInfo{TxId: "tx-0", TxVout: 0, Csv: 1008, StartingBlockHeight: start}
+	block := uint64(zzverif.U32("block"))
+	removal := zzverif.Bool("second_is_removal")
+	scan := func() { _ = wt.HandleCsvTx(block) }
+	change := func() {
+		if removal {
+			wt.TxClaimed([]string{"swap-0"})
+		} else {
+			wt.AddWaitForCsvTx(vSwapID, vTxID, 0, start, 1008, nil)
+		}
+	}
+	zzverif.Race2("C19.race_free", scan, change)
+}
